@@ -649,10 +649,51 @@ def check_siphash(ck):
         if not bad:
             ck.ok("SIP-TAIL", name, "cases 7..1 fall through, case c ORs byte c-1 shifted by 8(c-1) in 64-bit arithmetic; length byte << 56")
         tabs[name] = table
+    check_simd_alignment(ck, tu)
     if tabs.get("siphash_plain") == tabs.get("siphash_sse2"):
         ck.ok("SIP-TAIL", "plain vs sse2", "both implementations carry the same tail table", nontrivial=False)
     else:
         ck.violation("SIP-TAIL", "tlx::siphash_sse2", "twins", "the portable and the vectorised implementation assemble the tail differently", "tlx/siphash.hpp")
+
+
+ALIGNED_SIMD = {"_mm_load_si128": 16, "_mm_store_si128": 16, "_mm_load_pd": 16, "_mm_load_ps": 16, "_mm_store_pd": 16, "_mm_store_ps": 16,
+                "_mm_stream_si128": 16, "_mm256_load_si256": 32, "_mm256_store_si256": 32}
+
+
+def check_simd_alignment(ck, tu):
+    """key and message are plain byte pointers of unknown alignment: an aligned vector load/store through a
+    pointer derived from a parameter faults for a caller whose buffer is not 16-byte aligned"""
+    n = 0
+    for fn in tu.functions:
+        if fn.body is None or not fn.qname.startswith("tlx::siphash"):
+            continue
+        pids = {p["did"] for p in fn.params if "*" in (p.get("ty") or "")}
+        # locals that alias a parameter pointer
+        changed = True
+        while changed:
+            changed = False
+            for v in fn.nodes():
+                if v["k"] == "VarDecl" and v.get("did") not in pids and "*" in (v.get("ty") or "") and kids(v) and \
+                        any(x["k"] == "DeclRefExpr" and x["ref"]["id"] in pids for x in ir.walk(kids(v)[0])):
+                    pids.add(v["did"])
+                    changed = True
+        for z in fn.nodes():
+            if "callee" not in z:
+                continue
+            nm = z["callee"]["name"]
+            if not (nm.startswith("_mm") and ("load" in nm or "store" in nm or "stream" in nm)):
+                continue
+            n += 1
+            addr = kids(z)[0] if kids(z) else None
+            from_param = addr is not None and any(x["k"] == "DeclRefExpr" and x["ref"]["id"] in pids for x in ir.walk(addr))
+            if nm in ALIGNED_SIMD and from_param:
+                ck.violation("SIMD-ALIGNMENT", fn.qname, "%s:%s" % (fn.name, nm),
+                             "%s() requires a %d-byte aligned address but reads through %s, which comes from a byte-pointer parameter of arbitrary "
+                             "alignment (SIGSEGV for a key or message that is not aligned)" % (nm, ALIGNED_SIMD[nm], dtable.describe(addr)[:60]), fn.nloc(z))
+            else:
+                ck.ok("SIMD-ALIGNMENT", "%s %s" % (fn.name, nm), "unaligned-safe access" if from_param else "address is not caller memory",
+                      nontrivial=False)
+    return n
 
 
 def run(ck):
@@ -663,7 +704,7 @@ def run(ck):
         "reset after a flush; finalize(): length added first, 0x80, extra block iff curlen_ > block - L, fills and the byte order of the length and "
         "state stores (evaluated from the store helpers' shift schedules). Constant tables are recomputed from their defining formulas with integer "
         "arithmetic; boolean functions by truth table; Sigma/Gamma functions on all basis vectors (GF(2)-linear). SipHash: tail switch table, 64-bit "
-        "shift width, twin agreement. Not decided: the compression dataflow itself and SSE2 == portable beyond the tail.")
+        "shift width, twin agreement, no aligned vector access through the caller's byte pointers (SIMD-ALIGNMENT). Not decided: the compression dataflow itself and SSE2 == portable beyond the tail.")
     tus = {}
     for name, info in DIGESTS.items():
         tu = ir.extract(info["file"])
@@ -674,6 +715,7 @@ def run(ck):
     check_constants(ck, tus)
     check_functions(ck, tus)
     check_siphash(ck)
+    ck.floor("SIMD-ALIGNMENT", 2)
     ck.floor("PROCESS-CONSERVE", 4)
     ck.floor("FINAL-THRESHOLDS", 4)
     ck.floor("HEX-FRONTENDS", 16)
